@@ -123,11 +123,19 @@ type Env struct {
 	Scratch string // private scratch dir (under /dev/shm), removed by the parent
 	Self    string // path of the running binary
 	Replay  bool
+	ResetCPU func()
 	NoteFn  func(s string)
 }
 
 // Note records (in the case journal) what the worker is about to do, so that a fatal death of the
 // process can be attributed to a sub-case.
+// StepCPU restarts the CPU budget of the running case (see worker.go); a no-op outside a worker.
+func (e *Env) StepCPU() {
+	if e.ResetCPU != nil {
+		e.ResetCPU()
+	}
+}
+
 func (e *Env) Note(s string) {
 	if e.NoteFn != nil {
 		e.NoteFn(s)
